@@ -253,3 +253,88 @@ def lut(c):
         c.ensures("entry", f is expect[(a, b)])
     o = c.outcome(hmath.find_transformation_function, a, 'polar')
     c.ensures("unknown-raises", o.raised(NotImplementedError))
+
+
+SC = "holopy.scattering.scatterer."
+
+
+def _cluster(c, m):
+    cs = [c.vec("c%d_" % i) for i in range(m)]
+    sph = [c.call(Sphere, n=1.5, r=c.real("r%d" % i, nonneg=True), center=cs[i]) for i in range(m)]
+    return sph, cs
+
+
+class _Opaque(list):
+    def __bool__(self):
+        from pyvc import sym
+        return bool(sym.SBool(sym.cur().fresh('overlaps_nonempty', 'bool')))
+
+
+_STUB = [(SC + "spherecluster", "Spheres.overlaps", property(lambda self: _Opaque()))]
+
+
+def _rigid(kind, ms, tier='quick'):
+    def body(c):
+        m = c.choice("members", ms)
+        sph, cs = _cluster(c, m)
+        cl = c.call(Spheres if kind == 'Spheres' else Scatterers, sph)
+        a, b, g = c.angle("alpha"), c.angle("beta"), c.angle("gamma")
+        t = c.vec("t")
+        R = Rz(c, g).dot(Ry(c, b)).dot(Rz(c, a))
+        com = sum(cs) / m
+        rot = c.call(cl.rotated, a, b, g)
+        new = [np.array(s.center) for s in rot.scatterers]
+        for i in range(m):
+            c.ensures("rotated-about-centroid", c.eq(new[i], com + R.dot(cs[i] - com)))
+        c.ensures("centroid-fixed", c.eq(sum(new) / m, com))
+        for i in range(m):
+            for j in range(i + 1, m):
+                c.ensures("rotation-keeps-distances",
+                          c.eq(((new[i] - new[j]) ** 2).sum(), ((cs[i] - cs[j]) ** 2).sum()))
+        c.ensures("rotation-leaves-original", c.and_(*[c.eq(np.array(s.center), cs[i]) for i, s in enumerate(cl.scatterers)]))
+        tr = c.call(cl.translated, t[0], t[1], t[2])
+        moved = [np.array(s.center) for s in tr.scatterers]
+        for i in range(m):
+            c.ensures("translated-by-vector", c.eq(moved[i], cs[i] + t))
+        c.ensures("translation-leaves-original", c.and_(*[c.eq(np.array(s.center), cs[i]) for i, s in enumerate(cl.scatterers)]))
+        c.ensures("radii-kept", c.and_(*[c.eq(s.r, o.r) for s, o in zip(rot.scatterers, sph)],
+                                       *[c.eq(s.r, o.r) for s, o in zip(tr.scatterers, sph)]))
+        if m >= 2:
+            c.canary("rotation-about-origin", c.eq(new[0], R.dot(cs[0])))
+    body.__doc__ = "rotating / translating a %s moves its members rigidly" % kind
+    return body
+
+
+contract("C19", "composite_rigid_motion", [SC + "composite:Scatterers.rotated", SC + "composite:Scatterers.translated",
+                                          SC + "scatterer:Scatterer.translated", SC + "sphere:Sphere.rotated",
+                                          M + "rotate_points"],
+         bounded="1-3 members enumerated (values symbolic reals)", patches=_STUB)(_rigid('Spheres', [1, 2, 3]))
+contract("C19", "composite_rigid_motion_4to6", [SC + "composite:Scatterers.rotated", SC + "composite:Scatterers.translated"],
+         bounded="4-6 members enumerated (the property's range is 1-6)", patches=_STUB, tier='thorough',
+         timeout_ms=120000)(_rigid('Spheres', [4, 5, 6]))
+
+
+@contract("C19", "rigid_cluster", [SC + "spherecluster:RigidCluster.scatterers", SC + "spherecluster:RigidCluster.__init__",
+                                   SC + "spherecluster:RigidCluster.from_parameters"],
+          bounded="2 members (composition of the two proved motions)", patches=_STUB)
+def rigid_cluster(c):
+    """RigidCluster's members are the base spheres rotated about their centroid, then translated"""
+    sph, cs = _cluster(c, 2)
+    base = c.call(Spheres, sph)
+    a, b, g = c.angle("alpha"), c.angle("beta"), c.angle("gamma")
+    t = c.vec("t")
+    rc = c.call(RigidCluster, base, translation=tuple(t), rotation=(a, b, g))
+    R = Rz(c, g).dot(Ry(c, b)).dot(Rz(c, a))
+    com = sum(cs) / 2
+    got = [np.array(s.center) for s in rc.scatterers]
+    for i in range(2):
+        c.ensures("rotate-then-translate", c.eq(got[i], com + R.dot(cs[i] - com) + t))
+    c.ensures("base-untouched", c.and_(*[c.eq(np.array(s.center), cs[i]) for i, s in enumerate(base.scatterers)]))
+
+
+META = {
+    'out_of_reach': ["behaviour at very large magnitudes in floating point (the proof is over the reals)"],
+    'assumptions': ["the transform_* functions are elementwise, so one generic point (length-1 arrays) stands for every point",
+                    "lemma instances used by the two inverse round trips: sin(theta) > 0 on (0, pi) and injectivity of "
+                    "(cos, sin) on a half-open turn (lean/HolopyLemmas.lean: sin_pos_of_pos_of_lt_pi, angle_eq_of_cos_sin_eq)"],
+}
